@@ -172,7 +172,7 @@ func runC17(p *load.Program, r *core.Report) {
 
 	// ---- A2
 	rule2 := "C17.A2 mode-table"
-	r.Floor(rule2, 2)
+	r.Floor(rule2, 3)
 	{
 		fn := fname(term)
 		modeT := p.Named("gen", "ApplicationMode")
